@@ -41,6 +41,19 @@ class Gate:
         self.seq, self.sid, self.kind, self.fut, self.due, self.early = seq, sid, kind, fut, due, early
 
 
+class TimedList(list):
+    """trace list that remembers the virtual clock of every append (C17)"""
+
+    def __init__(self, ctl):
+        super().__init__()
+        self._ctl = ctl
+        self.t = []
+
+    def append(self, x):
+        super().append(x)
+        self.t.append(self._ctl.clock)
+
+
 class Controller:
     def __init__(self, schedule=None, specs=None):
         s = schedule or {}
@@ -54,13 +67,14 @@ class Controller:
         self.jitter = list(s.get("jitter", []))      # extra delay added when the clock jumps to a timer
         self.ji = 0
         self.specs = specs or {}
-        self.trace = []
-        self.logs = []
+        self.clock = 1024.0
+        self.trace = TimedList(self)
+        self.logs = TimedList(self)
         self.pending = []
         self.seq = 0
         self.mode = "off"          # off | run | shutdown
         self.verdict = None
-        self.clock = 1000.0
+        self.clock = 1024.0
         self.busy = 0
         self.iters = 0
         self.max_pending = 0
@@ -85,6 +99,8 @@ class Controller:
 
     def gate(self, sid, kind, dur=0.0):
         fut = asyncio.get_running_loop().create_future()
+        if self.timed:
+            dur = max(dur, 2.0 ** -30)     # on a real clock even an instant answer takes time
         g = Gate(self.seq, sid, kind, fut, self.clock + dur, self.early.get(self.seq))
         self.seq += 1
         self.pending.append(g)
@@ -745,6 +761,7 @@ def run_case(case, keep_world=False):
         res.stats = dict(max_pending=ctl.max_pending, nonfifo=ctl.nonfifo, releases=ctl.releases,
                          iters=ctl.iters, picks_used=ctl.pi, cand_counts=ctl.cand_counts)
         res.fault_fired = ctl.fault_fired
+        res.jitter_used = ctl.ji
         msched.perf_counter = orig_pc
         try:
             import mosaik._debug as dbg
